@@ -521,7 +521,7 @@ def spec_trailing_positional(fns, consts):
     interp = r"Parser::<'_>::(possible_subcommand|possible_long_flag_subcommand|parse_long_arg|parse_short_arg|parse_help_subcommand|parse_subcommand|is_new_arg)$"
     # the body's own `pos_counter + 1` overflow asserts are not the subject here (the counter is a
     # havoc'd usize in this fragment; overflowing it needs 2^64 positionals) - they are dropped
-    obs = [o for o in ex.obligations if o["kind"] != "assert"]
+    obs = [o for o in ex.obligations if o["kind"] not in ("assert", "panic")]
     n_pos = 0
     paths = [(pc, env.get("#calls", ()), env, True) for pc, env in ex.stops] + [(pc, calls, None, False) for (pc, _), calls in zip(ex.returns, ex.return_calls)] \
         + [(pc, env.get("#calls", ()), None, False) for pc, env in ex.cuts]
@@ -542,4 +542,51 @@ def spec_trailing_positional(fns, consts):
                        "obligations": len(obs), "return_paths": len(paths)}], con
 
 
-SPECS["C05"] = [spec_trailing_positional]
+def spec_escape_detected(fns, consts):
+    """The same loop body, entered where the token is tested for being the bare `--`, in the scenario
+    `is_escape() == true` and not yet in trailing mode: every feasible path either switches to
+    positional-only mode (start_trailing called, flag true at the next iteration, the `--` itself is
+    not stored or interpreted) or is the documented exception: the pending option/positional accepts
+    hyphen values (is_allow_hyphen_values_set() was consulted and is true)."""
+    con = contracts.Contracts(fns, default_pure=True, fixed={r"ParsedArg::<'_>::is_escape$": ("bool", "true")})
+    ctx = symex.Ctx(consts, con)
+    fn = _find(fns, "parser/parser.rs", "parse")
+    tv = fn.debug.get("trailing_values")
+    hdr = [b for b, blk in fn.blocks.items() if any(re.search(r"= RawArgs::next\(", s) for s in blk["stmts"])]
+    esc = [b for b, blk in fn.blocks.items() if any(re.search(r"= ParsedArg::<'_>::is_escape\(", s) for s in blk["stmts"])]
+    if not tv or len(hdr) != 1 or len(esc) != 1:
+        raise Unsupported("Parser::parse: loop header / is_escape test not found exactly once")
+    ex = symex.Exec(ctx, fn, [("opq", "self"), ("opq", "matcher"), ("opq", "raw_args"), ("opq", "cursor")])
+    ex.run(start=esc[0], stop_at=hdr[0], env={tv: ("bool", "false")}, havoc_unassigned=True, cut_loops=True)
+    obs = []   # overflow asserts / unreachable!() edges of the body are C01's subject, not this clause's
+    interp = r"Parser::<'_>::(possible_subcommand|possible_long_flag_subcommand|parse_long_arg|parse_short_arg|parse_help_subcommand|parse_subcommand|react|push_arg_values)$"
+    paths = [(pc, env.get("#calls", ()), env, True) for pc, env in ex.stops] + [(pc, calls, None, False) for (pc, _), calls in zip(ex.returns, ex.return_calls)] \
+        + [(pc, env.get("#calls", ()), None, False) for pc, env in ex.cuts]
+    n_switch = 0
+    hyph = [k for k in ctx.keys if re.search(r"Arg::is_allow_hyphen_values_set\(", k)]
+    for pc, calls, env, cont in paths:
+        switched = any(re.search(r"ArgMatcher::start_trailing$", c) for c in calls)
+        if switched:
+            n_switch += 1
+            bad = [c for c in calls if re.search(interp, c)]
+            ok = cont and env.get(tv, ("bool", "false"))[1] == "true" and not bad
+            obs.append({"fn": fn.name, "block": "escape", "kind": "spec", "target": "escape_detected", "msg": "`--` switches to positional-only mode and is itself neither stored nor interpreted",
+                        "pc": list(pc), "neg": "false" if ok else "true"})
+        else:
+            # not switching is only allowed when an argument that accepts hyphen values is pending
+            consulted = [ctx.keys[k] for k in hyph if any(ctx.keys[k] in c for c in pc)]
+            if any(c in pc for c in consulted):
+                neg = "false"   # the path condition itself contains "allows hyphen values" as a conjunct
+            else:
+                neg = "(not (or " + " ".join(consulted) + "))" if consulted else "true"
+            obs.append({"fn": fn.name, "block": "escape", "kind": "spec", "target": "escape_detected", "msg": "`--` is left to the pending argument only if that argument allows hyphen values",
+                        "pc": list(pc), "neg": neg})
+    if n_switch == 0:
+        raise Unsupported("Parser::parse: no path switches to trailing mode on `--` (vacuous)")
+    for o in obs:
+        o.setdefault("target", "escape_detected")
+    return ctx, obs, [{"function": fn.name + f" [loop body from the is_escape test {esc[0]} to {hdr[0]}, scenario is_escape = true]", "mir_line": fn.line, "mir_blocks": len(fn.blocks),
+                       "obligations": len(obs), "return_paths": len(paths)}], con
+
+
+SPECS["C05"] = [spec_trailing_positional, spec_escape_detected]
